@@ -45,7 +45,7 @@ func SelfTest(prop, repo, verif string) map[string]interface{} {
 		Failing []string `json:"failing,omitempty"`
 	}
 	results := make([]res, len(files))
-	sem := make(chan struct{}, 8)
+	sem := make(chan struct{}, 12)
 	var wg sync.WaitGroup
 	self, _ := os.Executable()
 	for i, f := range files {
